@@ -11,14 +11,14 @@ META = dict(
     technique="TLA+ state machine of the reentrant lock wrappers (count / mode / underlying lock / on-disk lock, one "
               "deterministic step function with per-wrapper variants) model-checked by TLC over all call sequences; a "
               "transition cover of TLC's state graph and random longer call sequences executed on real CountedLock, "
-              "LockableFiles+LockDir, branch, repository and working-tree objects; TLC judges every recorded "
+              "LockableFiles+LockDir, branch, pack and knit repository and working-tree objects; TLC judges every recorded "
               "observation against the specification",
     level_text="TLC explores every sequence of at most 8 calls (lock_read, lock_write without / with the valid / with a "
                "wrong token, lock_tree_write, unlock, and a second holder taking or releasing the on-disk lock) for each "
                "wrapper variant and proves: the underlying lock is acquired exactly at the first lock and released "
                "exactly at the matching last unlock, refused calls change nothing, write-in-read and surplus unlocks "
-               "are refused. Every edge of the resulting state graphs is executed on the real objects (2a format, on "
-               "disk) and the observation after every call - outcome, count, mode, calls on the underlying lock object, "
+               "are refused. Every edge of the resulting state graphs is executed on the real objects (2a format, "
+               "plus a knit repository for the generic Repository locking, on disk) and the observation after every call - outcome, count, mode, calls on the underlying lock object, "
                "renames of <lock>/held, lock directories on disk - is compared by TLC with the specified one. The "
                "wrappers are small counters, so exhausting their state graph is the right level.",
     level_note="Single-threaded use of one wrapper object plus one other holder; LockDir internals are C26/C27. Counts and "
@@ -31,7 +31,7 @@ INV = ("TypeOK", "PhysMatchesMode", "Balanced", "DiskExclusive")
 PROPS = ("AcquireOnlyAtFirstLock", "ReleaseOnlyAtLastUnlock", "FirstLockAcquires", "LastUnlockReleases",
          "DiskFollowsPhys", "RefusedUnchanged", "WriteInReadRefused", "ExtraUnlockRefused")
 WITNESSES = ("WitnessDeep", "WitnessRefusedWrite", "WitnessRelock", "WitnessAdopt")
-WRAPPERS = ("counted", "lockable", "branch", "repo", "tree")
+WRAPPERS = ("counted", "lockable", "branch", "repo", "knitrepo", "tree")
 OPS = {"repo": ["lock_read", "lock_write", "lock_write_good", "lock_write_bad", "unlock"],
        "tree": ["lock_read", "lock_write", "lock_tree_write", "unlock"]}
 TOK_OPS = ["lock_read", "lock_write", "lock_write_good", "lock_write_bad", "unlock", "ext_acquire", "ext_release"]
@@ -336,6 +336,36 @@ class RepoFx(DiskFixture):
                 "locked": bool(r.is_locked()), "disk": self.held_on_disk(), "bdisk": False}
 
 
+class KnitRepoFx(DiskFixture):
+    """breezy.repository.Repository.lock_write / lock_read / unlock (the generic implementation over control_files,
+    tokens passed through) as used by a knit-format repository."""
+    w = "knitrepo"
+    lockrel = "k/.bzr/repository/lock"
+
+    def __init__(self, sub, base):
+        super().__init__()
+        from breezy.repository import Repository
+        self.world, self.root = base["world"], base["root"]
+        self.obj = Repository.open(self.world.url("k/"))
+        self.wrap_lock(self.obj.control_files._lock)
+        self.ext = Repository.open(os.path.join(self.root, "k"))
+
+    def token_of(self, result):
+        return result.repository_token
+
+    def ext_acquire(self):
+        return self.ext.lock_write().repository_token
+
+    def ext_release(self):
+        self.ext.unlock()
+
+    def observe(self):
+        r = self.obj
+        cf = r.control_files
+        return {"count": cf._lock_count, "mode": cf._lock_mode or "none", "bmode": "none", "locked": bool(r.is_locked()),
+                "disk": self.held_on_disk() and not self.ext_held, "bdisk": False}
+
+
 class TreeFx(Fixture):
     w = "tree"
 
@@ -375,7 +405,8 @@ class TreeFx(Fixture):
         return ob
 
 
-FIXTURES = {"counted": Counted, "lockable": Lockable, "branch": BranchFx, "repo": RepoFx, "tree": TreeFx}
+FIXTURES = {"counted": Counted, "lockable": Lockable, "branch": BranchFx, "repo": RepoFx, "knitrepo": KnitRepoFx,
+            "tree": TreeFx}
 
 
 def make_base(workdir):
@@ -386,6 +417,8 @@ def make_base(workdir):
     os.makedirs(root)
     fmt = controldir.format_registry.make_controldir("2a")
     controldir.ControlDir.create_standalone_workingtree(os.path.join(root, "t"), format=fmt)
+    os.mkdir(os.path.join(root, "k"))
+    controldir.format_registry.make_controldir("knit").initialize(os.path.join(root, "k")).create_repository()
     world = sched.World("file://" + root + "/", significant=lambda op, path: op == "rename")
     world.transport()        # registers the decorator
     return {"root": root, "world": world}
@@ -409,16 +442,31 @@ def execute(sub, base, w, ops):
     return {"w": w, "ops": list(ops), "obs": obs}
 
 
+NEEDS_BASE = {"lockable", "branch", "repo", "knitrepo", "tree"}
+
+
 def _replay_chunk(sub, chunk):
-    base = make_base(sub.workdir)
-    rows = []
+    """Workers replay their call sequences; the on-disk fixture is built on first use.  If the tree under test is so
+    broken that the fixture cannot be built, the sequences needing it are skipped and reported (the remaining wrappers
+    are still judged; run() turns skipped sequences without any violation into a machinery failure)."""
+    base, base_error = None, None
+    rows, skipped = [], 0
     try:
-        for w, ops in chunk:
+        for w, ops in sorted(chunk, key=lambda j: j[0] in NEEDS_BASE):
+            if w in NEEDS_BASE and base is None and base_error is None:
+                try:
+                    base = make_base(sub.workdir)
+                except Exception as e:
+                    base_error = "%s: %s" % (type(e).__name__, str(e)[:200])
+            if w in NEEDS_BASE and base is None:
+                skipped += 1
+                continue
             rows.append(execute(sub, base, w, ops))
             sub.count(1)
     finally:
-        base["world"].close()
-    sub.cov.setdefault("_collect", []).extend(rows)
+        if base is not None:
+            base["world"].close()
+    sub.cov.setdefault("_collect", []).append({"rows": rows, "skipped": skipped, "error": base_error})
 
 
 def random_ops(rng, w, n):
@@ -476,19 +524,21 @@ def run(ctx):
     graphs = {}
     # E1: per wrapper family the state graph of all call sequences <= 8 (invariants and action properties checked on it)
     for w in ("counted", "repo", "tree"):
-        nodes, edges, inits, res = tlc.graph(ctx, "CountedLockMC", cfg_text=cfg(w, maxcalls, False),
+        nodes, edges, inits, res = tlc.graph(ctx, "CountedLockMC", cfg_text=cfg(w, maxcalls, False), workers=2,
                                              label="state graph + invariants + action properties: %s" % w)
         graphs[w] = (nodes, edges, inits)
     # same step function as "counted" (token passing); "branch" only adds bmode = mode (its repository's lock)
-    graphs["lockable"] = graphs["branch"] = graphs["counted"]
+    graphs["lockable"] = graphs["branch"] = graphs["knitrepo"] = graphs["counted"]
     if not ctx.quick:
         # the same with the call sequence kept in the state: every sequence is explored separately
         for w in ("counted", "branch", "repo", "tree"):
             tlc.check(ctx, "CountedLockMC", cfg_text=cfg(w, maxcalls, True), label="all call sequences <= %d: %s" % (maxcalls, w))
     else:
-        tlc.check(ctx, "CountedLockMC", cfg_text=cfg("branch", 6, True), label="all call sequences <= 6: branch")
+        # quick: the branch variant (bmode = mode) is checked on its merged graph only
+        tlc.check(ctx, "CountedLockMC", cfg_text=cfg("branch", maxcalls, False), workers=2,
+                  label="invariants + action properties: branch")
     res = tlc.run(ctx, "CountedLockMC", cfg_text=cfg("counted", 6, False, WITNESSES, ()), extra=("-continue",),
-                  allow_violation=True)
+                  allow_violation=True, workers=2)
     found = set(re.findall(r"Invariant (\w+) is violated", res["output"]))
     if set(WITNESSES) - found:
         ctx.machinery("vacuity guard: witnesses not reached: %s" % sorted(set(WITNESSES) - found))
@@ -520,26 +570,30 @@ def run(ctx):
         for _ in range(40 if ctx.quick else 400):
             jobs.append((w, random_ops(ctx.rng, w, ctx.rng.randint(9, 30))))
     core.fork_map(ctx, _replay_chunk, jobs)
-    rows = list(ctx.collected)
-    if len(rows) != len(jobs):
-        ctx.machinery("replayed %d of %d call sequences" % (len(rows), len(jobs)))
+    rows = [r for x in ctx.collected for r in x["rows"]]
+    skipped = sum(x["skipped"] for x in ctx.collected)
+    fixture_errors = sorted({x["error"] for x in ctx.collected if x["error"]})
+    if len(rows) + skipped != len(jobs):
+        ctx.machinery("replayed %d (+%d skipped) of %d call sequences" % (len(rows), skipped, len(jobs)))
     for r in rows:
         if any(o["out"] != "ok" for o in r["obs"]) or max(o["count"] for o in r["obs"]) >= 2:
             ctx.nontrivial((r["w"], tuple(r["ops"])))
-    ctx.sample(next(r for r in rows if r["w"] == "branch" and len(r["ops"]) >= 6))
-    ctx.sample(next(r for r in rows if r["w"] == "tree" and len(r["ops"]) >= 6))
+    for w in ("branch", "tree"):
+        smp = next((r for r in rows if r["w"] == w and len(r["ops"]) >= 6), None)
+        if smp is not None:
+            ctx.sample(smp)
     ctx.rule("call sequences = transition cover (every edge) of TLC's state graph of CountedLockMC with MaxCalls=%d per "
              "wrapper variant (%d sequences%s) plus %d harness-chosen random sequences of 9..30 calls; each executed on a "
              "fresh real object; non-trivial = contains a refused call or nesting depth >= 2"
              % (maxcalls, n_cover, ", capped at %d per wrapper" % cap if cap else "", len(jobs) - n_cover))
-    corrupted = selftest_rows(ctx, rows)
+    corrupted = selftest_rows(ctx, rows, tolerant=bool(skipped))
     for off in range(0, len(rows), 20000):
         part = rows[off:off + 20000]
         extra = [c[0] for c in corrupted] if off == 0 else []
         fin = os.path.join(ctx.workdir, "c28judge.json")
         with open(fin, "w") as f:
             json.dump(part + extra, f)
-        data, _ = tlc.json_cases(ctx, "CountedLockTrace", cfg_text=table.cfg(None), env={"VF_IN": fin},
+        data, _ = tlc.json_cases(ctx, "CountedLockTrace", cfg_text=table.cfg(None), env={"VF_IN": fin}, workers=2,
                                  label="CountedLockTrace (+%d self-test rows)" % len(extra))
         os.unlink(fin)
         if data["n"] != len(part) + len(extra):
@@ -562,27 +616,34 @@ def run(ctx):
         for i, (_, clause) in enumerate(extra and corrupted):
             if clause not in flagged.get(i + 1, set()):
                 ctx.machinery("binding self-test: corrupted row %d not flagged as %s (got %s)" % (i + 1, clause, flagged.get(i + 1)))
+    if skipped:
+        ctx.drift("%d call sequences skipped: the on-disk fixture (2a tree / knit repository) could not be built: %s" % (
+            skipped, fixture_errors))
+        if not ctx.violations:
+            ctx.machinery("on-disk fixture could not be built and no violation explains it: %s" % fixture_errors)
 
 
-def selftest_rows(ctx, rows):
+def selftest_rows(ctx, rows, tolerant=False):
     """Corrupted copies of real observations (binding self-test)."""
     def pick(pred):
         for r in rows:
             for k, (op, o) in enumerate(zip(r["ops"], r["obs"])):
                 if pred(r, k, op, o):
                     return json.loads(json.dumps(r)), k
+        if tolerant:
+            return None, None
         ctx.machinery("self-test: no suitable row")
     bad = []
-    r, k = pick(lambda r, k, op, o: o["ev"] == "acqW" and r["w"] == "branch")
-    r["obs"][k]["ev"] = "none"
-    bad.append((r, "phys"))
-    r, k = pick(lambda r, k, op, o: o["ev"] == "rel" and r["w"] == "lockable")
-    r["obs"][k]["dev"] = "none" if r["obs"][k]["dev"] == "drop" else "drop"
-    bad.append((r, "phys"))
-    r, k = pick(lambda r, k, op, o: o["out"] == "LockNotHeld")
-    r["obs"][k]["out"] = "ok"
-    bad.append((r, "extra_unlock"))
-    r, k = pick(lambda r, k, op, o: o["out"] == "ReadOnlyError" and o["mode"] == "r")
-    r["obs"][k]["count"] += 1
-    bad.append((r, "write_in_read"))
+
+    def add(pred, corrupt, clause):
+        r, k = pick(pred)
+        if r is not None:
+            corrupt(r["obs"][k])
+            bad.append((r, clause))
+    add(lambda r, k, op, o: o["ev"] == "acqW" and r["w"] == "branch", lambda o: o.update(ev="none"), "phys")
+    add(lambda r, k, op, o: o["ev"] == "rel" and r["w"] == "lockable",
+        lambda o: o.update(dev="none" if o["dev"] == "drop" else "drop"), "phys")
+    add(lambda r, k, op, o: o["out"] == "LockNotHeld", lambda o: o.update(out="ok"), "extra_unlock")
+    add(lambda r, k, op, o: o["out"] == "ReadOnlyError" and o["mode"] == "r", lambda o: o.update(count=o["count"] + 1),
+        "write_in_read")
     return bad
